@@ -345,8 +345,8 @@ class ipv6 (packet_base):
       return
 
     length = self.payload_length
-    if length > len(raw):
-      length = len(raw) # Clamp to what we've got
+    if length > len(raw) - offset:
+      length = len(raw) - offset # Clamp to what we've got
       self.msg('(ipv6) warning IP packet data incomplete (%s of %s)'
                % (len(raw), self.payload_length))
 
@@ -359,7 +359,7 @@ class ipv6 (packet_base):
         try:
           offset,o = c.unpack_new(raw, offset, max_length = length)
           length -= len(o)
-        except TruncatedException:
+        except (TruncatedException, struct.error):
           self.msg('(ipv6) warning, packet data truncated')
           return
         self.extension_headers.append(o)
